@@ -21,15 +21,19 @@ is asserted separately here with C02's tolerance).
 
 Probe on the unchanged tree (grids of 6 000 + 3 400 + 1 600 runs and random searches of 15 000 runs; first order /
 approach / chain, tol 1e-6..1e-12, k*T 1e-3..20, m0 1e-3..1): largest global error / tol
-  Runge-Kutta 1/2/3/6, any -step_divide, <= 20 steps       <= 0.4 (M-only laws), closure-limited for approach_c
+  Runge-Kutta 1/2/3/6, any -step_divide, <= 20 steps       <= 0.4 when tol is small against the amount reacting per step;
+     with the largest admitted tol (rates of the stages agree within tol -> the -runge_kutta 1/2/3 early exits are taken)
+     about 1-2 tol per integration: chained 1-5: 9, 6-12: 19, 13-20: 34, 21-40: 47, 41-70: 101, > 70: 110
   CVODE order 5, no restart, n chained integrations          n=1: 44, n=2: 47, n=4: 68, n=8: 50+, n=20: 167
   CVODE order 4 / 3 / 2 / 1 (single integration)             69 / 390 / 3 000 / 33 000  (error ~ tol^(q/(q+1)))
   CVODE with -cvode_steps <= 50 (restart path)               up to 1.5e10 (0.2 * m0), silently; none seen at >= 70
 => two known findings (see replays/C12/known): K1 the CVODE restart path resumes from a rejected trial solution;
-K2 with CVODE the global error is not bounded by 100*tol for -cvode_order <= 4 or for many chained integrations
+K2 the global error is not bounded by 100*tol: with CVODE for -cvode_order <= 4 or for many chained integrations (and, with the
+-runge_kutta 1/2/3 early exits, beyond about 40 chained integrations as they arise from transport sub-mixes)
 (20 incremental steps with the default order: 167*tol) and grows like tol^(-1/(q+1)) as the tolerance is tightened (order 5,
 one integration: 7 at tol/m0 = 1e-6, 21 at 1e-10, 44 at 1e-12).  The accuracy clauses are asserted for CVODE only with the default
-order 5, no restart, at most ACC_MAX_CHAINED = 2 chained integrations and tol >= CVODE_MIN_REL_TOL = 1e-10 of the largest amount,
+order 5, no restart, at most ACC_MAX_CHAINED = 2 chained integrations and tol >= RK_MAX_CHAINED = 20          # Runge-Kutta: accuracy clauses asserted up to this many chained integrations (DESIGN: step lists <= 20)
+CVODE_MIN_REL_TOL = 1e-10 of the largest amount,
 where the largest ratio seen in 9 000 random runs is 27.5 (two such ways may differ by twice that: a factor 2 of head room on
 the path-independence clause).  All trigger classes are excluded BY CONSTRUCTION from the accuracy clauses (exact solution, path independence) and
 counted (`excluded_known:*`); ways in those classes are still run and checked for every clause that does not
@@ -55,7 +59,7 @@ RULE = ("Hypothesis-generated KINETICS/RATES problems. Closed-form families: zer
         "-cvode with -cvode_order 1-5 / -cvode_steps 20-20000 / -bad_step_max} x {batch, ADVECTION 1 cell, TRANSPORT 1 cell with flux or "
         "constant boundaries (sub-mixes)}, each way in a fresh instance; the first two ways are always accuracy-bearing (Runge-Kutta, or "
         "CVODE order 5 without restart, <= 2 chained integrations and tol >= 1e-10 of the largest amount), the third may lie in a "
-        "known-finding class (CVODE order <= 4, -cvode_steps <= 100, > 2 chained integrations, tol < 1e-10 of the largest amount) where only "
+        "known-finding class (CVODE order <= 4, -cvode_steps <= 100, > 2 chained integrations (Runge-Kutta: > 20), tol < 1e-10 of the largest amount) where only "
         "the tolerance-free clauses are asserted. Library leg: phreeqc.dat RATES "
         "Calcite, Pyrite, Organic_C, K-feldspar, Albite, Quartz in their documented set-ups, same relations without the closed form. "
         "Non-trivial = the reaction moved > 1e-3 of m0, the bound 100*tol is < 10 % of the amount moved, >= 2 accuracy-bearing ways "
@@ -84,6 +88,7 @@ ELS = ["Na", "K", "Li", "Cl", "Br", "N"]
 SOLNAME = {"N": "N(5)"}
 TOLS = [1e-6, 1e-7, 1e-8, 1e-9, 1e-10, 1e-11, 1e-12]
 ACC_MAX_CHAINED = 2          # CVODE (order 5, no restart): accuracy clauses asserted up to this many chained integrations
+RK_MAX_CHAINED = 20          # Runge-Kutta: accuracy clauses asserted up to this many chained integrations (DESIGN: step lists <= 20)
 CVODE_MIN_REL_TOL = 1e-10    # CVODE accuracy clauses only for tol >= this * (largest reactant amount): error/tol grows like tol^(-1/6)
 NO_RESTART_STEPS = 5000      # -cvode_steps >= this never reaches the restart path in the generated domain (probe: order 5 needs <= 1000 steps)
 
@@ -131,7 +136,14 @@ def acc_way(draw, hosts, cv_ok=True):
             # 3 per shift with flow) within ACC_MAX_CHAINED by construction
             w["mixx"] = draw(cg.uni(0.1, 0.6 if cv else 4.0, 3))           # 4*D*dt/L^2 -> 1..7 mixing sub-steps
             w["flow"] = "diffusion_only" if cv else draw(st.sampled_from(["diffusion_only", "forward", "back"]))
-        w["part"] = {"type": "equal", "n": draw(st.integers(1, ACC_MAX_CHAINED if cv else 12))}
+        nmax = ACC_MAX_CHAINED if cv else 12
+        if const and not cv:
+            # keep shifts x sub-mixes within RK_MAX_CHAINED (probe: sub-mixes per shift 3/5/8 with flow, 1/2/4/7 without, for
+            # mixx <= 1/2/4 resp. <= 0.6/1/2/4); whatever still exceeds it is counted and classified after the run
+            mx = w["mixx"]
+            per = (8 if mx > 2 else 5 if mx > 1 else 3) if w["flow"] != "diffusion_only" else (7 if mx > 2 else 4 if mx > 1 else 2 if mx > 0.6 else 1)
+            nmax = min(12, RK_MAX_CHAINED // per)
+        w["part"] = {"type": "equal", "n": draw(st.integers(1, nmax))}
         if host == "transport_flux":
             w["flow"] = draw(st.sampled_from(["forward", "back"]))
     return w
@@ -600,7 +612,7 @@ def check_case(case, ctx, probe=None):
         # ---- is this way inside a known-finding trigger class?  (by construction; chained integrations counted)
         klass = static_class(w, tol, scale)
         nch = chained(w, reac, T)
-        if klass == "cvodeA" and nch > ACC_MAX_CHAINED:
+        if (klass == "cvodeA" and nch > ACC_MAX_CHAINED) or (klass == "rk" and nch > RK_MAX_CHAINED):
             klass = "K2_chained"
         acc = force_all or klass in ("rk", "cvodeA")
         if not acc:
